@@ -18,9 +18,11 @@ def build_scenarios(wd, proto, n, t, kinds, seed, limit=None, scheds=1, cross=Fa
     cases.sort(key=lambda c: json.dumps(c, sort_keys=True))
     total = len(cases)
     if limit is not None and len(cases) > limit:
-        rnd = random.Random(seed * 1000003 + hash(proto) % 1000)
+        # the (few) equivocation scenarios are never sampled out
+        keep = [c for c in cases if c["kind"] == "equiv"]
+        rest = [c for c in cases if c["kind"] != "equiv"]
         rnd = random.Random("%d/%s/%d" % (seed, proto, n))
-        cases = rnd.sample(cases, limit)
+        cases = keep + rnd.sample(rest, max(0, min(len(rest), limit - len(keep))))
     scen = []
     i = start_id
     for c in cases:
